@@ -1,0 +1,6 @@
+//go:build !verif
+
+package document
+
+// verifPoint is a no-op unless built with the "verif" tag.
+func verifPoint(name string) {}
